@@ -165,7 +165,7 @@ class Random(Fam):
     exhaustive = False
 
     def inputs(self, ctx):
-        n = 2500 if ctx.tier == 'quick' else 40000
+        n = 1500 if ctx.tier == 'quick' else 40000
         self.rule = (f'{n} seeded random inputs: 1-4 sequences of length 0..400 (some up to 5000) over ACGT / ACGTacgtN / '
                      f'arbitrary bytes incl. bytes one bit away from a nucleotide, planted forward and reverse prefix '
                      f'occurrences (flush with either end, too close to an end), k in 1..32, prefix length 1..7; '
